@@ -23,6 +23,8 @@ type c01Case struct {
 	Schema  string `json:"schema"`
 	OptKeys bool   `json:"keys_optional_by_default,omitempty"`
 	Doc     string `json:"doc"`
+	// Before: a (truncated) document validated on the same schema object just before Doc
+	Before string `json:"validated_before,omitempty"`
 }
 
 func c01Sizes(tier string) (units, schemasPerUnit, docs int) {
@@ -48,12 +50,20 @@ func c01Compare(c *mon.Ctx, s *model.Schema, text string, built *builtSchema, v 
 	for k, n := range o.Mech {
 		c.Count("mechanism: "+k, n)
 	}
+	before := ""
+	if n := len(docText); n%8 == 5 && n > 3 {
+		// a document cut short was validated just before (its result does not matter): what a
+		// broken document leaves behind must not leak into the next validation
+		before = docText[:n*2/3]
+		built.validate(before)
+		c.Count("validations preceded by a truncated document on the same schema", 1)
+	}
 	obs := built.validate(docText)
 	c.Eval(1)
 	if want == model.Unspec {
 		c.Count("oracle unspecified (not compared)", 1)
 		if obs.Panic != "" {
-			c.Violate("vpanic", c01Case{text, s.OptKeys, docText}, "no panic", obs.String(), "Validate panicked")
+			c.Violate("vpanic", c01Case{Schema: text, OptKeys: s.OptKeys, Doc: docText}, "no panic", obs.String(), "Validate panicked")
 		}
 		return
 	}
@@ -66,7 +76,7 @@ func c01Compare(c *mon.Ctx, s *model.Schema, text string, built *builtSchema, v 
 		if len(docText)%8 == 3 {
 			c.Count("documents also validated after Check() and Len() on the Document object", 1)
 			if pre := built.validateChecked(docText); pre.Verdict() != want.String() {
-				c.Violate("validate-checked", c01Case{text, s.OptKeys, docText}, want.String(), pre.String(),
+				c.Violate("validate-checked", c01Case{Schema: text, OptKeys: s.OptKeys, Doc: docText}, want.String(), pre.String(),
 					"Validate verdict changes when the Document was Check()ed before ("+class+")")
 			}
 		}
@@ -75,10 +85,12 @@ func c01Compare(c *mon.Ctx, s *model.Schema, text string, built *builtSchema, v 
 	// confirm on a fresh schema object (history independence is C11's business)
 	fresh := lib.Validate(lib.Spec{Text: text, OptKeys: s.OptKeys}, docText)
 	if fresh.Verdict() == want.String() {
-		c.Inconclusive("verdict differed on a reused schema object but not on a fresh one (C11 territory)")
+		// the statement speaks of every schema and document, whatever was validated before
+		c.Violate("validate-reused", c01Case{Schema: text, OptKeys: s.OptKeys, Doc: docText, Before: before}, want.String(), obs.String(),
+			fmt.Sprintf("Validate verdict on a schema object used before differs from the example-shape oracle, a fresh object agrees (%s; oracle: %s)", class, o.Why))
 		return
 	}
-	c.Violate("validate", c01Case{text, s.OptKeys, docText}, want.String(), fresh.String(),
+	c.Violate("validate", c01Case{Schema: text, OptKeys: s.OptKeys, Doc: docText}, want.String(), fresh.String(),
 		fmt.Sprintf("Validate verdict differs from the example-shape oracle (%s; oracle: %s)", class, o.Why))
 }
 
@@ -125,7 +137,7 @@ func c01Run(c *mon.Ctx, unit int) {
 			if !built.ok {
 				c.Count("generated schema rejected by Check (skipped)", 1)
 				if built.check.Panic != "" {
-					c.Violate("check", c01Case{text, opt, ""}, "no panic", built.check.String(), "Check panicked on a rule-free schema")
+					c.Violate("check", c01Case{Schema: text, OptKeys: opt}, "no panic", built.check.String(), "Check panicked on a rule-free schema")
 				}
 				c.Sample("schema rejected by Check", map[string]any{"schema": text, "error": built.check.String()})
 				continue
@@ -176,7 +188,7 @@ func c01Run(c *mon.Ctx, unit int) {
 					c01Permute(c, s, text, built, v)
 				}
 				if k == 0 && j < 2 && unit < 3 {
-					c.Sample(class, c01Case{text, opt, docText})
+					c.Sample(class, c01Case{Schema: text, OptKeys: opt, Doc: docText})
 				}
 			}
 		}
@@ -475,6 +487,20 @@ func init() {
 		Run: c01Run,
 		Replay: map[string]func(json.RawMessage) string{
 			"validate": c01ReplayValidate,
+			"validate-reused": func(raw json.RawMessage) string {
+				var cs c01Case
+				if err := json.Unmarshal(raw, &cs); err != nil {
+					return "bad replay: " + err.Error()
+				}
+				s, o := lib.Build(lib.Spec{Text: cs.Schema, OptKeys: cs.OptKeys})
+				if !o.OK {
+					return o.Verdict()
+				}
+				if cs.Before != "" {
+					lib.ValidateOn(s, cs.Before)
+				}
+				return lib.ValidateOn(s, cs.Doc).String()
+			},
 			"validate-checked": func(raw json.RawMessage) string {
 				var cs c01Case
 				if err := json.Unmarshal(raw, &cs); err != nil {
